@@ -47,7 +47,32 @@ type sshChanScript struct {
 	clen       int
 	clientEOF  bool
 	exitStatus int
+	timing     sshTiming
 	startAcked chan struct{}
+}
+
+// sshTiming is the backend's schedule on one channel: pauses (milliseconds) between its
+// actions. A remote command produces its output in bursts, may end its output long
+// before it exits (it closed stdout and kept working) and the server closes the channel
+// when it gets round to it - none of which changes what the client has to receive.
+type sshTiming struct {
+	// EOFFirst: the backend ends its output (EOF), then reports the exit status, then
+	// closes; otherwise exit status, EOF, close.
+	EOFFirst bool `json:"eof_first,omitempty"`
+	PieceMs  int  `json:"piece_ms,omitempty"` // before each data piece after the first
+	EndMs    int  `json:"end_ms,omitempty"`   // between the last data and the first closing action
+	ExitMs   int  `json:"exit_ms,omitempty"`  // between the first and the second closing action (EOF / exit status)
+	CloseMs  int  `json:"close_ms,omitempty"` // before the close
+}
+
+func (tm sshTiming) total(pieces int) time.Duration {
+	return time.Duration(tm.PieceMs*pieces+tm.EndMs+tm.ExitMs+tm.CloseMs) * time.Millisecond
+}
+
+func pause(ms int) {
+	if ms > 0 {
+		time.Sleep(time.Duration(ms) * time.Millisecond)
+	}
 }
 
 type sshScript struct {
@@ -218,9 +243,12 @@ func dataPhase(ch ssh.Channel, cs *sshChanScript, seen *sshChanSeen) {
 	seen.phase = "data"
 	seen.mu.Unlock()
 	writeB := func() {
-		for _, part := range split(cs.bdata, cs.bcuts) {
+		for i, part := range split(cs.bdata, cs.bcuts) {
 			if len(part) == 0 {
 				continue
+			}
+			if i > 0 {
+				pause(cs.timing.PieceMs)
 			}
 			if _, err := ch.Write(part); err != nil {
 				return
@@ -259,12 +287,24 @@ func dataPhase(ch ssh.Channel, cs *sshChanScript, seen *sshChanSeen) {
 			extra <- int(n)
 		}()
 	}
-	if cs.exitStatus >= 0 {
-		var p [4]byte
-		binary.BigEndian.PutUint32(p[:], uint32(cs.exitStatus))
-		ch.SendRequest("exit-status", false, p[:])
+	sendExit := func() {
+		if cs.exitStatus >= 0 {
+			var p [4]byte
+			binary.BigEndian.PutUint32(p[:], uint32(cs.exitStatus))
+			ch.SendRequest("exit-status", false, p[:])
+		}
 	}
-	ch.CloseWrite()
+	pause(cs.timing.EndMs)
+	if cs.timing.EOFFirst {
+		ch.CloseWrite()
+		pause(cs.timing.ExitMs)
+		sendExit()
+	} else {
+		sendExit()
+		pause(cs.timing.ExitMs)
+		ch.CloseWrite()
+	}
+	pause(cs.timing.CloseMs)
 	ch.Close()
 	select {
 	case x := <-extra:
@@ -297,6 +337,14 @@ type sshChan struct {
 	// answers only then, like a filter command; otherwise both sides write at once
 	ClientEOF  bool `json:"client_eof"`
 	ExitStatus int  `json:"exit_status"` // sent by the backend before it closes; -1 none
+	// Timing: the backend's schedule (pauses between its data pieces, the end of its
+	// output, its exit status and its close; which of the last two comes first)
+	Timing sshTiming `json:"timing"`
+}
+
+// scripted is how long the backend pauses on this channel by the case's own script.
+func (chs sshChan) scripted() time.Duration {
+	return chs.Timing.total(len(split(make([]byte, chs.BData.Len), chs.BCuts)))
 }
 
 type sshConn struct {
@@ -354,7 +402,11 @@ func (e *labEnv) runSSHConn(ci int, sc sshConn, user string, script *sshScript) 
 	defer c.Close()
 	res.local = c.LocalAddr()
 	var timedOut int32
-	watchdog := time.AfterFunc(4*waitBound, func() {
+	var scripted time.Duration
+	for _, chs := range sc.Chans {
+		scripted += chs.scripted()
+	}
+	watchdog := time.AfterFunc(4*waitBound+scripted, func() {
 		atomic.StoreInt32(&timedOut, 1)
 		c.Close()
 	})
@@ -362,7 +414,7 @@ func (e *labEnv) runSSHConn(ci int, sc sshConn, user string, script *sshScript) 
 	fail := func(format string, a ...interface{}) *sshResult {
 		msg := fmt.Sprintf(format, a...)
 		if atomic.LoadInt32(&timedOut) == 1 {
-			res.err = &timeoutErr{msg + " (gave up after " + (4 * waitBound).String() + ")"}
+			res.err = &timeoutErr{msg + " (gave up after " + (4*waitBound + scripted).String() + ")"}
 		} else {
 			res.err = errors.New(msg)
 		}
@@ -462,8 +514,8 @@ func (e *labEnv) runSSHConn(ci int, sc sshConn, user string, script *sshScript) 
 		// the backend closes the channel after its data (and exit status)
 		select {
 		case <-cr.inDone:
-		case <-time.After(waitBound):
-			return fail("channel %d: the backend closed its channel after its data but the client's channel was not closed within %s", k, waitBound)
+		case <-time.After(waitBound + chs.scripted()):
+			return fail("channel %d: the backend closed its channel after its data but the client's channel was not closed within %s", k, waitBound+chs.scripted())
 		}
 		ch.Close()
 	}
@@ -499,7 +551,7 @@ func checkSSHOnce(t testing.TB, c sshCase) error {
 			s.accept = &p
 		}
 		for _, chs := range sc.Chans {
-			cs := &sshChanScript{bdata: chs.BData.bytes(), bcuts: chs.BCuts, clen: chs.CData.Len, clientEOF: chs.ClientEOF, exitStatus: chs.ExitStatus, startAcked: make(chan struct{})}
+			cs := &sshChanScript{bdata: chs.BData.bytes(), bcuts: chs.BCuts, clen: chs.CData.Len, clientEOF: chs.ClientEOF, exitStatus: chs.ExitStatus, timing: chs.Timing, startAcked: make(chan struct{})}
 			for _, rq := range chs.Reqs {
 				cs.replies = append(cs.replies, rq.Accept)
 			}
@@ -643,7 +695,7 @@ func checkSSHOnce(t testing.TB, c sshCase) error {
 					wantIn = append(wantIn, seenReq{"exit-status", false, p[:]})
 				}
 				if fmt.Sprint(in) != fmt.Sprint(wantIn) {
-					return fmt.Errorf("%s: before closing the backend sent the requests %v, the client received %v", where, wantIn, in)
+					return fmt.Errorf("%s: before closing the backend sent the requests %v, the client received %v (backend schedule: %+v)", where, wantIn, in, chs.Timing)
 				}
 			}
 		}
@@ -766,10 +818,72 @@ func genSSHConn(t *rapid.T) sshConn {
 			chs.BCuts = genCuts(t, "bcut", chs.BData.Len)
 			chs.ClientEOF = rapid.Bool().Draw(t, "client-eof")
 			chs.ExitStatus = rapid.SampledFrom([]int{-1, 0, 0, 1, 127, 255}).Draw(t, "exit-status")
+			if rapid.IntRange(0, 2).Draw(t, "timed") == 0 {
+				chs.Timing = genSSHTiming(t, shortPauses)
+			}
 			sc.Chans = append(sc.Chans, chs)
 		}
 	}
 	return sc
+}
+
+var shortPauses = []int{0, 0, 0, 1, 10, 50}
+
+// genSSHTiming draws a backend schedule whose pauses come from pool.
+func genSSHTiming(t *rapid.T, pool []int) sshTiming {
+	return sshTiming{
+		EOFFirst: rapid.Bool().Draw(t, "eof-first"),
+		PieceMs:  rapid.SampledFrom(shortPauses).Draw(t, "piece-ms"),
+		EndMs:    rapid.SampledFrom(pool).Draw(t, "end-ms"),
+		ExitMs:   rapid.SampledFrom(pool).Draw(t, "exit-ms"),
+		CloseMs:  rapid.SampledFrom(pool).Draw(t, "close-ms"),
+	}
+}
+
+// genSSHTimingCase: connections whose login is accepted and whose channels start; on one
+// channel of every connection the backend takes its time (0.5 .. 3 s) at one drawn point
+// of its schedule - between its data pieces, before it ends its output, between the end
+// of its output and its exit status (either order), before it closes. The connections of
+// a case run side by side, so a case costs its longest pause.
+func genSSHTimingCase(t *rapid.T) sshCase {
+	n := rapid.SampledFrom([]int{1, 2, 3, 3, 3}).Draw(t, "nconn")
+	var c sshCase
+	for i := 0; i < n; i++ {
+		sc := genSSHConn(t)
+		if _, ok := sc.expectedAttempts(); !ok {
+			sc.Passwords = sc.Passwords[:1]
+			sc.Accept = 0
+			var chs sshChan
+			chs.Reqs = []sshReq{genSSHReq(t, true)}
+			chs.BData = genBody(t, "bdata")
+			chs.BCuts = genCuts(t, "bcut", chs.BData.Len)
+			chs.ExitStatus = rapid.SampledFrom([]int{0, 1, 127, 255}).Draw(t, "exit-status")
+			sc.Chans = []sshChan{chs}
+		}
+		for k := range sc.Chans {
+			sc.Chans[k].Reqs[len(sc.Chans[k].Reqs)-1].Accept = true
+			sc.Chans[k].Timing = genSSHTiming(t, shortPauses)
+		}
+		chs := &sc.Chans[rapid.IntRange(0, len(sc.Chans)-1).Draw(t, "slow-chan")]
+		if rapid.IntRange(0, 5).Draw(t, "with-status") > 0 && chs.ExitStatus < 0 {
+			chs.ExitStatus = rapid.SampledFrom([]int{0, 3, 255}).Draw(t, "exit-status")
+		}
+		long := rapid.SampledFrom([]int{500, 1100, 1500, 2000, 3000, 3000}).Draw(t, "long-ms")
+		switch rapid.SampledFrom([]string{"exit", "exit", "exit", "close", "end", "piece"}).Draw(t, "slow-at") {
+		case "exit":
+			chs.Timing.ExitMs = long
+			chs.Timing.EOFFirst = rapid.IntRange(0, 2).Draw(t, "eof-first") > 0
+		case "close":
+			chs.Timing.CloseMs = long
+		case "end":
+			chs.Timing.EndMs = long
+		default:
+			// the pause is taken before every piece but the first: share it out
+			chs.Timing.PieceMs = long / maxInt(1, len(split(make([]byte, chs.BData.Len), chs.BCuts))-1)
+		}
+		c.Conns = append(c.Conns, sc)
+	}
+	return c
 }
 
 func genSSHCase(t *rapid.T) sshCase {
@@ -800,18 +914,30 @@ func (c sshCase) nontrivial() bool {
 	return false
 }
 
+const sshTimingRule = "SSH backend schedule: 1..3 concurrent connections as in the SSH rule, login accepted, every channel started; the backend pauses between its actions (0..50 ms between data pieces, before the end of its output, between end of output and exit status - either order -, before its close) and on one channel of every connection one of these pauses is 0.5 / 1.1 / 1.5 / 2 / 3 s (half of them between end of output and exit status); same oracle: every byte and every request (exit status) the backend sends reaches the client whenever it is sent; the TestSSH generator draws the short pauses on 1 channel in 3; non-trivial as in the SSH rule"
+
 const sshRule = "SSH: 1..3 concurrent x/crypto/ssh clients through ssh-proxy to a harness ssh server; 1..4 password attempts per connection (empty, NUL, non-ASCII, generated) of which the backend accepts one or none; after a login 1..2 session channels with 0..3 env/pty-req requests (want-reply or not, accepted or refused) then exec/shell (accepted or refused), well-formed or raw payloads, then channel data 0..64 KiB each way written in 1..5 pieces; oracle: backend's attempts, request types/flags/payloads and data == sent, client's replies and data == backend's, events for attempts and requests attributed to the client's address, decoy untouched; non-trivial = channel data exchanged or >=2 relayed requests (attempts + channel requests) on one connection"
 
 func TestSSH(t *testing.T) {
+	runSSH(t, "TestSSH", sshRule, vlib.Open(prop).Pick(350, 2500), genSSHCase)
+}
+
+// TestSSHBackendTiming: the backend's schedule as a dimension of its own (few cases, each
+// as long as its longest pause).
+func TestSSHBackendTiming(t *testing.T) {
+	runSSH(t, "TestSSHBackendTiming", sshTimingRule, vlib.Open(prop).Pick(5, 60), genSSHTimingCase)
+}
+
+func runSSH(t *testing.T, name, rule string, checks int, gen func(*rapid.T) sshCase) {
 	r := vlib.Open(prop)
-	r.Rule(sshRule)
+	r.Rule(rule)
 	var rc sshCase
-	if vlib.ReplayCase("TestSSH", &rc) {
+	if vlib.ReplayCase(name, &rc) {
 		if err := checkSSH(t, rc); err != nil {
 			if isInfra(err) {
 				infraExit(err)
 			}
-			r.Violation(t, "TestSSH", rc, err.Error())
+			r.Violation(t, name, rc, err.Error())
 		}
 		return
 	}
@@ -819,8 +945,8 @@ func TestSSH(t *testing.T) {
 		return
 	}
 	getEnv(t)
-	r.Rapid(t, "TestSSH", r.Pick(350, 2500), func(rt *rapid.T) {
-		c := genSSHCase(rt)
+	r.Rapid(t, name, checks, func(rt *rapid.T) {
+		c := gen(rt)
 		fp := ""
 		if c.nontrivial() {
 			fp = vlib.JSON(c)
@@ -839,13 +965,44 @@ func TestSSH(t *testing.T) {
 				for _, rq := range chs.Reqs {
 					r.Label("ssh/request/"+rq.Type, 1)
 				}
+				if ok && chs.Reqs[len(chs.Reqs)-1].Accept {
+					labelSSHTiming(r, chs)
+				}
 			}
 		}
 		if err := checkSSH(t, c); err != nil {
 			if isInfra(err) {
 				infraExit(err)
 			}
-			r.Fail(rt, "TestSSH", c, "%v", err)
+			r.Fail(rt, name, c, "%v", err)
 		}
 	})
+}
+
+func pauseClass(ms int) string {
+	switch {
+	case ms == 0:
+		return "0"
+	case ms < 1000:
+		return "<1s"
+	default:
+		return ">=1s"
+	}
+}
+
+func labelSSHTiming(r *vlib.Run, chs sshChan) {
+	tm := chs.Timing
+	order := "exit-status-then-eof"
+	if tm.EOFFirst {
+		order = "eof-then-exit-status"
+	}
+	if chs.ExitStatus < 0 {
+		order = "eof-no-exit-status"
+	}
+	r.Label("ssh/backend-schedule/"+order+"/pause="+pauseClass(tm.ExitMs), 1)
+	r.Label("ssh/backend-schedule/before-close/pause="+pauseClass(tm.CloseMs), 1)
+	r.Label("ssh/backend-schedule/before-end-of-output/pause="+pauseClass(tm.EndMs), 1)
+	if tm.PieceMs > 0 && len(split(make([]byte, chs.BData.Len), chs.BCuts)) > 1 {
+		r.Label("ssh/backend-schedule/between-data-pieces/paused", 1)
+	}
 }
